@@ -130,6 +130,12 @@ class SrvConn(WebSocketServer):
         self._peer_addr_port = ("ipv4", "10.1.1.1", 1)
 
     def sendMessage(self, payload, isBinary=False):
+        if getattr(self.world, "raw_utf8", False):
+            # a server whose JSON encoder does not \u-escape non-ASCII text: the same JSON value, raw UTF-8 bytes
+            try:
+                payload = json.dumps(json.loads(payload), ensure_ascii=False).encode("utf-8")
+            except Exception:
+                pass
         if self.conn.alive:
             self.conn.s2c.append(payload)
             m = json.loads(payload)
